@@ -380,6 +380,9 @@ FIXED = [
      "void f6() { sigc::slot<void(long&)> s = [](long& x) { ++x; }; sigc::slot<long(long)> t = [](const long& x) { return x; }; (void)s; (void)t; }"),
     ("lambda-value-to-ref", False,
      "void f7() { sigc::slot<void(long)> s = [](long& x) { ++x; }; (void)s; }"),
+    ("nullary-functor-returning-reference-to-uncopyable", True,
+     "#include <iostream>\nstd::ostream& os8(); struct Abstract9 { virtual void f() = 0; }; Abstract9& ab9();\n"
+     "void f9() { sigc::signal<void()> g; g.connect(sigc::hide_return(&os8)); sigc::slot<std::ostream&()> s = &os8; sigc::slot<Abstract9&()> t = sigc::ptr_fun(&ab9); (void)s; (void)t; }"),
     ("mem-functor-unbound", True,
      "struct T8 : public sigc::trackable { void m(int& x); };\nvoid f8() { sigc::slot<void(T8&, int&)> s = sigc::mem_fun(&T8::m); (void)s; }"),
 ]
